@@ -63,6 +63,7 @@ type StyleOpts struct {
 	Whitespace   bool    // draw whitespace variants (otherwise single blanks)
 	ForceProb    float64 // probability of redundant parentheses
 	AltBrackets  bool
+	UpperProto   bool // protocol names in upper case with probability 1/2 (only valid through SanitizeUserInput)
 }
 
 func pick(r *rand.Rand, xs []string) string { return xs[r.Intn(len(xs))] }
@@ -85,7 +86,7 @@ func RandStyle(r *rand.Rand, c *gen.Cond, o StyleOpts) *Styled {
 		s.Op = spell(NotSpellings)
 	default:
 		s.Op = spell(CmpSpellings[c.Op])
-		s.UpperVal = r.Intn(2) == 0
+		s.UpperVal = o.UpperProto && r.Intn(2) == 0
 	}
 	if IsWord(s.Op) {
 		s.WsL, s.WsR = " ", " "
